@@ -285,6 +285,11 @@ func checkC07(w *SketchWorld, slot int) (fails []mc.Fail) {
 				fail("C07.documented-format", "a plain sketch wrote statistics blocks")
 			}
 			mc.Count("encodings_parsed", 1)
+			for _, bl := range blocks {
+				if bl.Kind == "positive" || bl.Kind == "negative" {
+					mc.Count(fmt.Sprintf("%s_store_blocks_in_layout_%d_written_by_the_implementation", sl.Store.String()[:1], bl.Layout), 1)
+				}
+			}
 			if sl.Exact {
 				// the plain decoder accepts it and ignores the statistics; the content is
 				// what the documentation assigns to the blocks (weights through +1/-1)
